@@ -157,7 +157,7 @@ def convScalarL (v : GoVal) (t : ParamTy) : Res Cause GoVal :=
     | .bytes b => .ok (.str b)
     | .time u => (timeString u).bind fun b => .ok (.str b)
     | .flt k q => (if isWholeSmall q then fmtFloatF k q else fmtFloatG k q).bind fun b => .ok (.str b)
-    | w => (sprint w).bind fun b => .ok (.str b)
+    | w => (sprintR w).bind fun b => .ok (.str b)
   | .time =>
     match v with
     | .time u => .ok (.time u)
@@ -178,7 +178,7 @@ theorem convScalarL_mp {t : ParamTy} {u u' : GoVal} (h : MP u u') : RRel true Eq
   · cases t <;> simp only [convScalarL] <;> first
       | exact RRel.of_eq (fun _ => rfl) rfl
       | (cases h <;> exact RRel.of_eq (fun _ => rfl) rfl)
-      | (have hs := sprint_mp h
+      | (have hs := sprintRR_mp h
          cases h <;> first
            | exact RRel.of_eq (fun _ => rfl) rfl
            | exact RRel.bind hs (fun b b' e => by subst e; exact RRel.of_eq (fun _ => rfl) rfl))
@@ -486,7 +486,7 @@ theorem sprintNonNil_mp : ∀ {ys ys' : List GoVal}, MPL ys ys' → RRel true Eq
     simp only [sprintNonNil, isNil_mp hx]
     split
     · exact sprintNonNil_mp h
-    · exact rrel_true_bind_soft (sprint_mp hx) (fun _ => rrel_true_bind_soft (sprintNonNil_mp h) (fun _ => RRel.of_eq (fun _ => rfl) rfl))
+    · exact rrel_true_bind_soft (sprintRR_mp hx) (fun _ => rrel_true_bind_soft (sprintNonNil_mp h) (fun _ => RRel.of_eq (fun _ => rfl) rfl))
 
 theorem joinF_mp {xs xs' : List GoVal} (hx : MPL xs xs') (sep : Bytes) : RRel true MP (joinF xs sep) (joinF xs' sep) := by
   unfold joinF
